@@ -838,6 +838,11 @@ fn block_lits(src: &mut Src) -> Lit {
 	let nlines = src.range(1, 4);
 	let mut text = String::from(if chomp { "|||-\n" } else { "|||\n" });
 	let mut val = String::new();
+	// blank lines before the first indented line belong to the content
+	for _ in 0..src.weighted(&[6, 2, 1]) {
+		text.push('\n');
+		val.push('\n');
+	}
 	for i in 0..nlines {
 		match src.weighted(&[5, if i > 0 { 2 } else { 0 }, if i > 0 { 2 } else { 0 }]) {
 			0 => {
